@@ -21,6 +21,8 @@ Decided (structural; nothing is expanded or run):
    reaches every sub-pattern (list items, improper tails, compound arguments);
  * wildcards and compound arguments (K12): `_` is emitted as a *call* creating a new anonymous
    variable at each occurrence, a variable argument as the variable itself.
+ (round 4) macro front end only appends (or-pattern alternatives, arms and patterns keep source
+   order); Conde::from_array one branch per goal.
 """
 import macrolib
 import streams
@@ -414,6 +416,17 @@ def check_conde_builder(ctx, lib, RB):
         nodes = [s for s in sym.subterms(t) if s[0] == "struct" and suffix_match(s[1], "conde::Conde")]
         ok = len(nodes) == 1 and dict(nodes[0][2]).get("conjunctions", (0, 0))[:2] == ("param", 0) and not [s for s in sym.subterms(t) if s[0] in ("if", "match", "ret")]
         ctx.expect(ok, RB, fn["npath"] + "|keeps-all", site_of(fn), "Conde::from_vec must keep the clause vector as given")
+    fn = streams.getfn(ctx, lib, RB, "crate::operator::conde::Conde::from_array")
+    if fn:
+        t = ev.fn_term(fn)
+        nodes = [s for s in sym.subterms(t) if s[0] == "struct" and suffix_match(s[1], "conde::Conde")]
+        ok = len(nodes) == 1 and not [s for s in sym.subterms(t) if s[0] in ("if", "match", "ret", "for")]
+        if ok:
+            c = dict(nodes[0][2]).get("conjunctions", (0,))
+            src, chain = streams.iter_chain(c)
+            # goals.to_vec() / goals.iter().cloned().collect(): one branch per listed goal
+            ok = src[:2] == ("param", 0) and all(n in streams.ONE_TO_ONE or n in ("to_vec", "collect") for n, _ in chain)
+        ctx.expect(ok, RB, fn["npath"] + "|one-branch-per-goal", site_of(fn), "Conde::from_array(&[g1, .., gn]) is the disjunction with exactly the branches g1 .. gn (not one conjunction of them); found %s" % show(t, maxdepth=6)[:200])
 
 
 def run(ctx, fb, cfg):
@@ -431,4 +444,5 @@ def run(ctx, fb, cfg):
     else:
         check_alignment(ctx, mac, bound)
         check_get_vars(ctx, mac)
+        macrolib.check_sequence_ops(ctx, mac, "C13.K6.front-end-only-appends")
     check_library(ctx, fb.lib)
